@@ -78,6 +78,8 @@ def eval_hist(cell):
     hname = "prec" if fam == "GMRF" else "scale"
     lname = "mean" if fam == "GMRF" else "location"
     ops = [("set-%s" % hname, 0), ("set-%s" % hname, 1), ("set-%s" % lname, 0), ("set-%s" % lname, 1), ("read", None), ("eval", None)]
+    if fam == "GMRF":
+        ops.append(("draw", None))        # one draw from the field (its own mean/precision must not move)
 
     def build():
         cls = getattr(cuqi.distribution, fam)
@@ -130,7 +132,7 @@ def eval_hist(cell):
         return res
     for L in range(1, cell["depth"] + 1):
         for seq in itertools.product(range(len(ops)), repeat=L):
-            if ops[seq[-1]][0] in ("read", "eval") and L > 1 and ops[seq[-2]][0] == ops[seq[-1]][0]:
+            if ops[seq[-1]][0] in ("read", "eval", "draw") and L > 1 and ops[seq[-2]][0] == ops[seq[-1]][0]:
                 continue        # repeated read-only step adds nothing
             obj, model = build()
             hist = []
@@ -147,6 +149,12 @@ def eval_hist(cell):
                         _ = obj.logpdf(x)
                 elif name == "eval":
                     _ = obj.logpdf(x)
+                elif name == "draw":
+                    try:
+                        obj.sample(1, rng=np.random.RandomState(2))
+                        obj.sample(2, rng=np.random.RandomState(3))
+                    except Exception:
+                        pass
                 elif name == "set-" + hname:
                     setattr(obj, hname, hv[arg])
                     model["h"] = hv[arg]
@@ -367,6 +375,22 @@ def _check_gmrf(res, cell, facet, Pref, ld_ref, rank_ref, pts, loc):
             except Exception as e:
                 res.fail("C20|GMRF|sqrtprec-raises|%s" % facet, "sqrtprec raised %r" % (e,))
         res.outcomes.add("gmrf:%s:%.6g" % (mean_kind, vals[-1]))
+        # the exact log-determinant is used for every dimension up to AND INCLUDING cuqi.config.MAX_DIM_INV
+        # (above it the documented behaviour is an approximation, which is not judged)
+        if mean_kind == "zero" and cell["bc"] != "zero" and cell["order"] == 1 and dim <= 16:
+            old_max = cuqi.config.MAX_DIM_INV
+            try:
+                for thr in (dim, dim + 1):
+                    cuqi.config.MAX_DIM_INV = thr
+                    g2 = cuqi.distribution.GMRF(np.zeros(dim), prec, bc_type=cell["bc"], order=1, geometry=_geom(pd, N))
+                    res.transitions += 1
+                    res.evaluations += 1
+                    if not (np.isfinite(g2._logdet) and close(g2._logdet, ld_ref, 1e-5)):
+                        res.fail("C20|GMRF|rank-logdet|%s,dim=MAX_DIM_INV%s" % (facet, "" if thr == dim else "-1"),
+                                 "with cuqi.config.MAX_DIM_INV=%d a field of dimension %d reports logdet %r, the pseudo-log-"
+                                 "determinant of its precision is %r" % (thr, dim, g2._logdet, ld_ref))
+            finally:
+                cuqi.config.MAX_DIM_INV = old_max
     if res.sample is None:
         res.sample = {"gmrf_logpdf_at_generic_point": float(vals[-1]), "reference_rank": rank_ref,
                       "reference_logdet": ld_ref}
